@@ -457,12 +457,12 @@ Proof.
       unfold fuel_ok in *. rewrite He in Hf. rewrite He'. lia.
 Qed.
 
-Lemma cname_chase_sat : forall rounds m ans name, good_name m name ->
-  sat (cname_chase rounds m ans name) (fun o => match o with Some p => good_name m p | None => True end).
+Lemma cname_chase_sat : forall rounds scan m ans name, good_name m name -> fuel_ok scan ans ->
+  sat (cname_chase rounds scan m ans name) (fun o => match o with Some p => good_name m p | None => True end).
 Proof.
-  induction rounds as [|rounds IH]; intros m ans name Hn; cbn [cname_chase]; [exact I|].
-  eapply sat_bind; [apply cname_scan_sat; [exact Hn|apply sec_fuel_ok]|].
-  intros o Ho. destruct o as [t|]; [apply IH; exact Ho|cbn [sat bind fst snd no_panic item_ok unwrap_opt s_err s_cnt s_pos s_kind q_name rr_owner rr_data rr_rdlen rr_end]; exact Hn].
+  induction rounds as [|rounds IH]; intros scan m ans name Hn Hf; cbn [cname_chase]; [exact I|].
+  eapply sat_bind; [apply cname_scan_sat; [exact Hn|exact Hf]|].
+  intros o Ho. cbv beta in *. destruct o as [t|]; [apply IH; [exact Ho|exact Hf]|cbn [sat]; exact Hn].
 Qed.
 
 (* the loop bound is computed without overflow (the u32 widening) *)
@@ -486,7 +486,7 @@ Proof.
   destruct (count_offsets m Hh) as [_ [Han _]].
   eapply sat_bind; [apply count_at_sat; exact Han|]. intros an _. cbv beta in *.
   eapply sat_bind; [apply canonical_rounds_sat|]. intros rounds _. cbv beta in *.
-  apply cname_chase_sat. exact Hfq.
+  apply cname_chase_sat; [exact Hfq|apply sec_fuel_ok].
 Qed.
 
 (* ------------------------------------------------------------------ opt *)
